@@ -66,7 +66,7 @@ theorem sat_restorePart_foot_core {w : World} {infos : List (Path × Option Info
     · exact hne (hsep a k hla hlt ha)
   unfold restorePart
   apply Sat.bind
-  apply (sat_classify_any S (infos := infos) infos {} w w (fun _ h => h) (SameFS.refl w) (PlanOK.empty _)).mono
+  apply (sat_classify_any S (infos := infos) infos {} w w (fun _ h => h) (SameFS.refl w) hg (PlanOK.empty _)).mono
   intro w1 r ⟨hs1, hplan⟩
   have h1 : PR w1 := LSim.Foot.of_same hg hs1
   cases r with
